@@ -280,7 +280,7 @@ func (e *c15env) checkReadF(kind string, off int64, p []byte, n int, err error, 
 	// persistent: a tract holding wanted bytes was unreadable on every replica for the whole call;
 	// consulted: some tract the client has to ask (even only to find the end) was unreadable at least once
 	persistent, consulted := false, false
-	firstBad := int64(-1)
+	firstBad, firstHard := int64(-1), int64(-1)
 	if len(fs) > 0 && k > 0 {
 		det["faults"] = fmt.Sprint(fs)
 		ntracts := (L + c15TL - 1) / c15TL
@@ -297,7 +297,15 @@ func (e *c15env) checkReadF(kind string, off int64, p []byte, n int, err error, 
 			if f.kind == 1 && want > 0 && t <= (off+want-1)/c15TL {
 				persistent = true
 			}
-			if firstBad < 0 || t < firstBad {
+			// a tract is unreadable only while no replica can answer: kind 1 for the whole call, kind 3 only during
+			// the first execution of readAt (after a cache-invalidation retry it reads fine), kind 2 never.
+			// The monitor cannot see whether readAt retried, so the bound is the first persistently unreadable
+			// tract if there is one, else the first tract unreadable in the first execution.
+			if f.kind == 1 {
+				if firstHard < 0 || t < firstHard {
+					firstHard = t
+				}
+			} else if firstBad < 0 || t < firstBad {
 				firstBad = t
 			}
 		}
@@ -333,7 +341,7 @@ func (e *c15env) checkReadF(kind string, off int64, p []byte, n int, err error, 
 	if isFault {
 		if !consulted {
 			e.report(kind+"-spurious-read-error", "a read failed although every needed tract had a healthy replica", det)
-		} else if limit := firstBad*c15TL - off; int64(n) > limit && int64(n) > 0 {
+		} else if limit := c15firstUnreadable(firstBad, firstHard, e.cli.useCache())*c15TL - off; int64(n) > limit && int64(n) > 0 {
 			e.report(kind+"-count-past-unreadable-tract", "a failed read claims bytes at or beyond the first tract it could not read", det)
 		}
 		return // an error makes no claim about bytes beyond n
@@ -360,6 +368,15 @@ func (e *c15env) checkReadF(kind string, off int64, p []byte, n int, err error, 
 		// full count: nil (EOF tolerated only when the read ends exactly at the end)
 		e.report(kind+"-full-count-with-error", "a read that was fully satisfied returned an error", det)
 	}
+}
+
+// c15firstUnreadable: with the location cache off readAt never re-executes, so the first tract without a healthy
+// replica in the first execution bounds the count; with it on, a retry may have read the transiently failing tracts.
+func c15firstUnreadable(firstTransient, firstHard int64, mayRetry bool) int64 {
+	if firstHard >= 0 && (mayRetry || firstTransient < 0 || firstHard < firstTransient) {
+		return firstHard
+	}
+	return firstTransient
 }
 
 // ---- operations: each performs the call on the real code, records it, and runs the monitor ----
